@@ -47,7 +47,7 @@ def run(ck):
     ck.rule = ("one case = fresh server, one storage index with 1..3 shares (v1 or v2 container each), 0..10 "
                "pre-loaded leases, then <=40 ops per share; distinct = distinct (setup, op history); "
                "non-trivial = history grew a container past its extra-lease offset and truncated or deleted")
-    ncases = 220 if ck.tier == "quick" else 9000
+    ncases = 150 if ck.tier == "quick" else 4000
     for ci in range(ncases):
         if not ck.mine(ci):
             continue
